@@ -108,6 +108,9 @@ func HarnessC15Markup() {
 	}
 	doc := vx.ParseHTML(`<html><head>` + head + `</head><body>` + body + `</body></html>`)
 	ce := NewContentExtractor(dom.QuerySelector(doc, "html"), nil, nil)
+	if vx.Choose("order", 2) == 1 {
+		ce.ExtractContent() // the order of distiller.Apply: content first, then the title
+	}
 	got := ce.ExtractTitle()
 	if want != "" {
 		vx.Cover("markup")
